@@ -398,6 +398,14 @@ example : centroidNum ⟨3, 5, fun i j => if (i = 0 ∧ j = 1) ∨ (i = 2 ∧ j 
 
 /-! ## hexagonal segment grid -/
 
+/-- **tie to the source of `hex_ring`**: the model's ring IS the loop translation `Gen.hexRing` (the two nested `for` loops of the source as folds
+over the state `(results, hex)`, statement by statement) with the translated `hex_neighbor`; it equals the recursive walk all ring lemmas are
+proved about. Reordering the loop body, changing a bound or the neighbour rule changes the generated definition and breaks this theorem. -/
+theorem hex_ring_translated (k : ℕ) :
+    hexRing k = Gen.hexRing k ∧ hexRing k = (walkSides k 6).1 ∧
+    ∀ (h : HexCell) (i : ℕ), hexNeighbor h i = Gen.hexAdd h (Gen.hexDirections.getD i (0, 0, 0)) :=
+  ⟨rfl, hexRing_eq_walk k, fun _ _ => rfl⟩
+
 /-- `hex_ring(k)` lists `6k` cells -/
 theorem hex_ring_length (k : ℕ) : (hexRing k).length = 6 * k := hexRing_length k
 
